@@ -80,6 +80,7 @@ struct Src {
     }
   }
   void Fulfil() {
+    VF_W(side, "C04,C13");
     side = code;
     set_call = Stamp();
     if (shared) {
@@ -147,6 +148,7 @@ void CheckTouch(World& w, Src& s) {
     w.obs.bad_not_ready.fetch_add(1, kRlx);
     return;
   }
+  VF_R(s.side, "C04,C13");
   if (s.side != s.code) {
     w.obs.bad_side.fetch_add(1, kRlx);
   }
@@ -225,6 +227,7 @@ int Expected(const Src& s) {
             if (a->set_call == 0) {                                                                                    \
               w.obs.bad_not_ready.fetch_add(1, kRlx);                                                                  \
             }                                                                                                          \
+            VF_R(a->side, "C04,C13");                                                                                  \
             if (a->side != a->code) {                                                                                  \
               w.obs.bad_side.fetch_add(1, kRlx);                                                                       \
             }                                                                                                          \
